@@ -351,4 +351,6 @@ func Run(t *tr.W, thorough bool) {
 		runCurrent(t, rng)
 		scenQueuePressure(t, rng)
 	}
+	// chains longer than one headers message: what the locator of a request has to contain (one world per run)
+	runLong(t)
 }
